@@ -24,6 +24,7 @@ RULE = (
     "replaced child, or an error step whose node id differs from its child id, or >= 2 nodes interleaved; distinct = distinct case JSON."
     ' Round 6: all 256 node ids enumerated; read errors and clock ticks among the events.'
     ' Round 7: every internal/stream type x payload 0/1/none followed by a new node appearing (no hidden switches).'
+    ' Round 8: `flag` ops (the application sets Node.reboot); `tasks` (every message handled in a task of its own).'
 )
 ASSUMPTIONS = [
     "battery payloads in the definite class (plain decimal, no .5 tie, 0-100); other spellings are accepted either way",
